@@ -501,7 +501,7 @@ def run_case(index, rng, tier):
     if mode == "after-channel-close":
         # close() within a few loop steps after channel.close(): the peer's reset response has not arrived yet
         ks = [n_steps + d for d in ((0, 1, 2, 3, 4, 6, 8, 12, 16, 24) if tier == "quick" else range(0, 60))]
-    elif tier == "thorough" and index % 12 == 0:
+    elif tier == "thorough" and index % 13 == 0:  # 13 is coprime to the 16 shards (index % 16 = shard): the long cases spread evenly
         ks = list(range(1, n_steps + 1, 1 if n_steps < 400 else 2))
     else:
         m = 10 if tier == "quick" else 16
